@@ -148,7 +148,8 @@ def gen_shape(rng, lo=2, hi=9):
 
 
 def gen_dist(rng):
-    mag = rng.choice([0.015625, 0.25, 1.0, 2.5, 7.0, 10.0, 33.0, 100.0])
+    mag = rng.choice([0.015625, 0.25, 1.0, 2.5, 7.0, 10.0, 33.0, 100.0, 2.0 ** -30, 2.0 ** -27])   # incl. distances that are tiny
+    #                                                          in absolute terms (lengths in metres): only d == 0 is "no propagation"
     return rng.choice([-1, 1]) * mag * rng.choice([1.0, 1.5, 0.75, 1.0 + 2.0 ** -10])
 
 
